@@ -328,7 +328,7 @@ func checkC12(e *core.Env) {
 			}
 			h = s
 		}
-		c := httpCarrier("http", nil, h, "/", false)
+		c := httpCarrier("http", nil, h, "/", false, false)
 		defer c.Close()
 		u := &url.URL{Scheme: "http", Host: c.URL.Host, Path: base}
 		cc := &httpgrpc.Channel{Transport: c.Transport, BaseURL: u}
